@@ -199,6 +199,14 @@ func c08ReadOne(conn *websocket.Conn, api string) (r c08Reading) {
 		r.typ = typ
 		r.data = c08Scratch[:0]
 		buf := c08Buf[:]
+		if api == "reader0" {
+			// a Read with an empty buffer first (a length-prefixed protocol reading an empty
+			// field): it transfers nothing and decides nothing about the message
+			if n, err := rd.Read(buf[:0]); n != 0 || (err != nil && err != io.EOF) {
+				r.err = fmt.Errorf("Read with an empty buffer returned (%d, %v)", n, err)
+				return
+			}
+		}
 		for {
 			n, err := rd.Read(buf)
 			r.data = append(r.data, buf[:n]...)
@@ -535,7 +543,7 @@ func c08DeclaredOverLimit(c *fw.Ctx, cs c08Case) {
 var c08Limits = []int64{0, 1, 2, 125, 126, 4096, c08DefaultLimit, 65536, -1, math.MaxInt64, math.MaxInt64 - 1}
 var c08Framings = []string{"one", "split-at-limit", "bytes", "empty-frags", "many-empty-frags"}
 var c08Comps = []string{"off", "zeros", "no-takeover", "bfinal", "stored-open"}
-var c08APIs = []string{"read", "reader", "netconn"}
+var c08APIs = []string{"read", "reader", "netconn", "reader0"}
 
 func c08Sizes(L int64, thorough bool) []int {
 	if L < 0 || L > 1<<40 {
